@@ -114,6 +114,19 @@ func checkCase(c Case) error {
 	if g := util.StringToGUID(a.Text()); g == nil || !sameLib(*g, a) {
 		return fmt.Errorf("StringToGUID(%q) = %+v", a.Text(), g)
 	}
+	// the returned GUID belongs to the caller: changing it must not change what the next conversion returns
+	if g := util.StringToGUID(a.Text()); g != nil {
+		g.Data1, g.Data2, g.Data4[3] = ^g.Data1, ^g.Data2, ^g.Data4[3]
+	}
+	if g := util.BytesToGUID(a.BE()); g != nil {
+		g.Data3 = ^g.Data3
+	}
+	if g := util.StringToGUID(a.Text()); g == nil || !sameLib(*g, a) {
+		return fmt.Errorf("StringToGUID(%q) = %+v after the result of an earlier identical call was modified by the caller", a.Text(), g)
+	}
+	if g := util.BytesToGUID(a.BE()); g == nil || !sameLib(*g, a) {
+		return fmt.Errorf("BytesToGUID(%x) = %+v after the result of an earlier identical call was modified by the caller", a.BE(), g)
+	}
 	up := strings.ToUpper(a.Text())
 	if g := util.StringToGUID(up); g == nil || !sameLib(*g, a) {
 		return fmt.Errorf("StringToGUID(%q) = %+v", up, g)
